@@ -18,7 +18,7 @@ func init() { Registry["C04"] = c04 }
 // truth is in the shape of the code are decided (see DESIGN 4/C04): scale consistency of the feedback
 // path (units-of-measure inference), provenance of the fed-back value, monotonicity of the steady value.
 func c04(c *Ctx) {
-	c.R.Explanation = "C04: three structural clauses are decided on the SSA of /repo; the dynamics are not. R-scale (engine E7, units-of-measure inference): every numeric value of the controller and control-loop packages gets a dimension vector over {loop scale 0..255, fan scale [min,max]/raw PWM}; +, -, phi, store/load of fields and cells, argument/parameter binding (helpers instantiated per call site) generate equalities, * and / add/subtract vectors, literals and unmodelled operations are free variables. Seeds come from the interfaces only: SpeedCurve.Evaluate -> loop; ControlLoop.Cycle(loop, loop) -> loop (also imposed on its implementations); Fan.GetPwm/GetMinPwm/GetMaxPwm/GetStartPwm -> fan; Fan.SetPwm/SetMinPwm/SetMaxPwm/SetStartPwm(fan). The system is solved by elimination; an impossible equality is a violation at the instruction that introduced it. This is a necessary condition of 'the steady request is determined by the curve value and the fan limits alone, identically with and without maxPwmChangePerCycle': a fan-scaled value fed back as the loop's current value moves the fixed point (the pinned tree did exactly that: min 100, curve 0, limit 10 -> 154, 187, ... 237; fixed in /repo, see KNOWN_FINDINGS). R-feedback: the value handed to Cycle as `current` comes (apart from a first-cycle initialiser) from a controller field whose every store is the (clamped) result of Cycle, and that store is passed on every path from the Cycle call to a successful return. R-mono-steady (engine E8): the request is non-decreasing in the curve value through the direct loop, clamp and rescale. R-ownloop: every fan controller is constructed with a control-loop object created for it (inside the per-fan iteration): a loop object shared by several controllers shares the PID memory, so one fan's error history moves another fan's requests. R-clock: a control-loop routine that measures elapsed time against a remembered time stamp (the PID loop's dt) stores this activation's time.Now() into that field on every path to a return - otherwise the next dt spans the whole idle period and the integral winds up in proportion to how long nothing happened ('depends only on the settings, not on what happened before'). NOT decided: settling time itself, PID wind-up bounds and 'within one step' for PID, exact equality of fixed points, the per-cycle difference bound in fan scale, monotone approach."
+	c.R.Explanation = "C04: three structural clauses are decided on the SSA of /repo; the dynamics are not. R-scale (engine E7, units-of-measure inference): every numeric value of the controller and control-loop packages gets a dimension vector over {loop scale 0..255, fan scale [min,max]/raw PWM}; +, -, phi, store/load of fields and cells, argument/parameter binding (helpers instantiated per call site) generate equalities, * and / add/subtract vectors, literals and unmodelled operations are free variables. Seeds come from the interfaces only: SpeedCurve.Evaluate -> loop; ControlLoop.Cycle(loop, loop) -> loop (also imposed on its implementations); Fan.GetPwm/GetMinPwm/GetMaxPwm/GetStartPwm -> fan; Fan.SetPwm/SetMinPwm/SetMaxPwm/SetStartPwm(fan). The system is solved by elimination; an impossible equality is a violation at the instruction that introduced it. This is a necessary condition of 'the steady request is determined by the curve value and the fan limits alone, identically with and without maxPwmChangePerCycle': a fan-scaled value fed back as the loop's current value moves the fixed point (the pinned tree did exactly that: min 100, curve 0, limit 10 -> 154, 187, ... 237; fixed in /repo, see KNOWN_FINDINGS). R-feedback: the value handed to Cycle as `current` comes (apart from a first-cycle initialiser) from a controller field whose every store is the (clamped) result of Cycle, and that store is passed on every path from the Cycle call to a successful return. R-mono-steady (engine E8): the request is non-decreasing in the curve value through the direct loop, clamp and rescale. R-ownloop: every fan controller is constructed with a control-loop object created for it (inside the per-fan iteration): a loop object shared by several controllers shares the PID memory, so one fan's error history moves another fan's requests. R-clock: a control-loop routine that measures elapsed time against a remembered time stamp (the PID loop's dt) stores this activation's time.Now() into that field on every path to a return - otherwise the next dt spans the whole idle period and the integral winds up in proportion to how long nothing happened ('depends only on the settings, not on what happened before'). NOT decided: settling time itself, PID wind-up bounds and 'within one step' for PID, exact equality of fixed points, the per-cycle difference bound in fan scale, monotone approach. R-clock also requires that a time-stamped loop routine is advanced only from control cycles / curve evaluations (who-may-call over the static callers): a call from a constructor or start-up code takes the first stamp long before the first cycle."
 	c.R.Assumptions = append(c.R.Assumptions,
 		"dimension seeds are the documented meaning of the Fan, SpeedCurve and ControlLoop interfaces",
 		"literals and values from unmodelled operations may take any dimension (they can never cause a report)")
